@@ -550,6 +550,7 @@ class Prop:
                 env.token("skip")
                 continue
             fired0 = env.fired["raise"]
+            inner_before = list(mt) if isinstance(on, list) else None
             ret_m, allowed, at_bound = self.model_step_guarded(model, op, (lo, hi))
             if allowed == "skip":
                 env.end_op()
@@ -624,6 +625,15 @@ class Prop:
                                     % (describe(op), on, en, calls[:4]), i)
             else:
                 ok_changes += 1
+                if inner_before is not None and list(mt) != inner_before \
+                        and not any(cl[0] == "obs" for cl in calls):
+                    # the inner list was stored by an earlier operation on the outer
+                    # container: whatever object is stored there must be the observed one
+                    raise Violation("C04.inner-not-observed",
+                                    "%s on %r changed an inner list (%r -> %r) but the observer of "
+                                    "'%s.items.items' was not called: the stored container is "
+                                    "not the one that was announced"
+                                    % (describe(op), on, inner_before, list(mt), name), i)
                 if ckind == "list" and k in ("pop", "pop_last") and ret != ret_m:
                     raise Violation("C04.contents", "pop returned %r, model %r" % (ret, ret_m), i)
             env.token(name, isinstance(on, list), k, "fail" if expect_fail else "ok", en,
@@ -727,7 +737,7 @@ def describe(op):
     for f in ("i", "n"):
         if f in op:
             parts.append(str(op[f]))
-    if "key" in op:
+    if isinstance(op.get("key"), dict):
         parts.append(repr(raw_s(op["key"])))
     if "v" in op:
         parts.append(repr(raw_s(op["v"])))
